@@ -940,6 +940,7 @@ func (e *Engine) verifyFunc(key string) (c *Ctx, err error) {
 	for _, r := range k.Requires {
 		s.assume(c.cevalBool(r.Expr, s, nil, fi.decl.Body.Lbrace+1))
 	}
+	c.heapGet(s, "X.alloc", sA1)
 	for kk, vv := range s.heap {
 		c.entry.heap[kk] = vv
 	}
@@ -1015,7 +1016,7 @@ func (c *Ctx) atClauses(s *State, label string, pos token.Pos) {
 	for _, a := range c.con.Ats[label] {
 		switch a.Kind {
 		case "assert":
-			g := c.cevalBool(a.Expr, s, nil, pos)
+			g := c.cevalBool(a.Expr, s, c.atArgs, pos)
 			c.oblige(s, "assert@"+strings.ReplaceAll(label, " ", ""), a.Text, pos, g, a.Tags)
 			s.assume(g)
 		case "assume-shared":
@@ -1148,6 +1149,28 @@ func (c *Ctx) frameEffect(s *State, key string) {
 		pos = c.decl.Body.Rbrace
 	}
 	c.oblige(s, "frame", key, pos, "false", nil)
+}
+
+// frameEffectRef: a write to object ref under heap key `key`. Not covered by `modifies` it is still allowed when the object
+// did not exist when the function was entered (semantic freshness: ghost allocation set at entry).
+func (c *Ctx) frameEffectRef(s *State, key, ref string) {
+	if c.con == nil || !c.con.HasModifies || c.dry > 0 || s == nil {
+		return
+	}
+	if c.frameCovered(key) {
+		return
+	}
+	pos := c.curPos
+	if c.decl != nil && pos == token.NoPos {
+		pos = c.decl.Body.Rbrace
+	}
+	goal := "false"
+	if c.entry != nil {
+		if al, ok := c.entry.heap["X.alloc"]; ok {
+			goal = or(eq(ref, "0"), eq(sel(al, innerRef(ref)), "0"))
+		}
+	}
+	c.oblige(s, "frame", key, pos, goal, nil)
 }
 
 func (c *Ctx) frameCheck(pos token.Pos) {}
